@@ -9,3 +9,4 @@ import PqVerif.Props.C18
 import PqVerif.Props.C07
 import PqVerif.Props.C14
 import PqVerif.Props.C11
+import PqVerif.Props.C04
